@@ -1474,6 +1474,25 @@ def value_table(fn, e, depth=0):
     return [([], e0)]
 
 
+def unmodified_clone(fn, e, type_frag):
+    """`e` is a whole clone of a value of type `type_frag` that is not written afterwards: `x.clone()` itself, or a local that
+    is initialised with such a clone and is never mutably borrowed or partially assigned.  Returns (ok, source expression)"""
+    e1 = e
+    hops = 0
+    while isinstance(e1, tuple) and e1 and e1[0] == 'var' and hops < 4:
+        hops += 1
+        l = e1[1]
+        if l in fn.mut_borrowed() or fn.stores().get(l):
+            return False, None
+        ds = fn.defs().get(l, [])
+        if len(ds) != 1:
+            return False, None
+        e1 = fn.expr_of_def(ds[0])
+    if isinstance(e1, tuple) and e1 and e1[0] == 'call' and e1[1].endswith('::clone') and type_frag in e1[4] and e1[2]:
+        return True, e1[2][0]
+    return False, None
+
+
 def method_family(P, root, exclude=()):
     """`root` plus the private methods it was split into: in-crate, non-closure callees of root (and of those) that take the same
     `&mut Self` receiver type as root and have no other caller.  Rules about what `root` does look at the whole family."""
